@@ -175,6 +175,9 @@ pub enum Op {
     /// RELOAD with a changed pool_size: the pool (its statement cache and server connections) is rebuilt while the clients stay
     /// connected with their prepared names
     Reload,
+    /// Parse(name) of a statement the server rejects at first (its table does not exist yet) + Sync, then the same text is
+    /// prepared again under the same name, bound and executed: now it must work
+    LateTable(u8),
 }
 
 #[derive(Clone, Debug, Serialize, Deserialize)]
@@ -206,7 +209,7 @@ impl Part for WirePart {
         true
     }
     fn rule(&self) -> String {
-        "1..3 clients, prepared_statements_cache_size 1/2/8, pool_size 1..2; histories of 3..16 operations over names {unnamed, s1, s2} shared by all clients and a pool of 14 statements shared between clients (adjacent text/type encodings, whitespace-only differences): Parse, Bind/Describe/Execute of a name (optionally preparing it in the same batch), two statements in one batch, Close, BEGIN/COMMIT to pin connections, SQL PREPARE (forces DEALLOCATE ALL at check-in), a Parse the server rejects, a statement that prepares fine and fails when executed, a RELOAD that rebuilds the pool under the connected clients. Model: per client name -> most recently prepared (text, types). Oracle per batch, from the mock backend's log: every Execute ran exactly the model's text and parameter types, the backend raised no duplicate/unknown-statement error, Parse/Bind bytes reaching the backend differ from the client's only in the statement name, the client got a complete reply. Non-trivial = two clients use one name for different statements, a statement is evicted, or a batch runs on a connection that has not seen its statement".into()
+        "1..3 clients, prepared_statements_cache_size 1/2/8, pool_size 1..2; histories of 3..16 operations over names {unnamed, s1, s2} shared by all clients and a pool of 14 statements shared between clients (adjacent text/type encodings, whitespace-only differences): Parse, Bind/Describe/Execute of a name (optionally preparing it in the same batch), two statements in one batch, Close, BEGIN/COMMIT to pin connections, SQL PREPARE (forces DEALLOCATE ALL at check-in), a Parse the server rejects, a statement the server rejects once (its table does not exist yet) and that is then prepared again and used, a statement that prepares fine and fails when executed, a RELOAD that rebuilds the pool under the connected clients. Model: per client name -> most recently prepared (text, types). Oracle per batch, from the mock backend's log: every Execute ran exactly the model's text and parameter types, the backend raised no duplicate/unknown-statement error, Parse/Bind bytes reaching the backend differ from the client's only in the statement name, the client got a complete reply. Non-trivial = two clients use one name for different statements, a statement is evicted, or a batch runs on a connection that has not seen its statement".into()
     }
     fn cases(&self, tier: Tier) -> u64 {
         tier.pick(1_600, 24_000)
@@ -223,6 +226,7 @@ impl Part for WirePart {
             1 => Just(Op::SqlPrepare),
             1 => st.prop_map(Op::FailParse),
             1 => Just(Op::Reload),
+            1 => (0u8..3).prop_map(Op::LateTable),
         ];
         (prop_oneof![Just(1u8), Just(2u8), Just(8u8)], 1u8..=2, 1u8..=3, prop_oneof![Just(1u8), Just(2u8)], prop::collection::vec((0u8..3, op), 3..17))
             .prop_map(|(cache, pool_size, clients, workers, steps)| WireCase { cache, pool_size, clients, workers, steps, allow_known: false })
@@ -412,6 +416,46 @@ async fn run_wire(c: &WireCase, ctx: &mut WorkerCtx) -> Outcome {
                     break;
                 }
                 o.label("pool_rebuilt_by_reload");
+                continue;
+            }
+            Op::LateTable(nm) => {
+                if in_txn[i] {
+                    continue;
+                }
+                let name = NAMES[*nm as usize % 3];
+                let t = clis[i].tag();
+                let sql = format!("{} SELECT v FROM late_table_{} WHERE id = $1 /*@ failonce */", t.render(), si);
+                distinct_stmts.insert((sql.clone(), vec![23]));
+                let mut b = proto::parse(name, &sql, &[23]);
+                b.extend_from_slice(&proto::sync());
+                clis[i].send(&b).await;
+                let (m1, e1) = clis[i].read_until_ready(wire::T_REPLY).await;
+                if !matches!(e1, ReadEnd::Ready(_)) {
+                    o.fail("batch-not-answered", format!("step {}: the Parse the server rejects ended {:?}", si, e1));
+                    break;
+                }
+                if !m1.iter().any(|x| x.code == b'E') {
+                    // (the pooler answered the Parse by itself: nothing to build on)
+                    names[i].remove(name);
+                    continue;
+                }
+                names[i].remove(name);
+                let mut b = proto::parse(name, &sql, &[23]);
+                b.extend_from_slice(&proto::bind("", name, &[0], &[Some(b"1".to_vec())], &[0]));
+                b.extend_from_slice(&proto::execute("", 0));
+                b.extend_from_slice(&proto::sync());
+                clis[i].send(&b).await;
+                let (m2, e2) = clis[i].read_until_ready(wire::T_REPLY).await;
+                o.label("statement_rejected_then_prepared_again");
+                o.nontrivial = true;
+                if !matches!(e2, ReadEnd::Ready(_)) || m2.iter().any(|x| x.code == b'E') || !m2.iter().any(|x| x.code == b'D') {
+                    o.fail(
+                        "statement-unusable-after-rejected-parse",
+                        format!("step {}: client c{} prepared {:?} as {:?}; the server rejected it once (42P01). Prepared again and bound, it must run now, but the reply was {:?} errors {:?} ({:?})", si, i + 1, sql, name, m2.iter().map(|x| x.code as char).collect::<String>(), crate::cli::errors(&m2), e2),
+                    );
+                    break;
+                }
+                names[i].insert(name.to_string(), (sql, vec![23]));
                 continue;
             }
             Op::FailParse(s) => {
